@@ -2,7 +2,7 @@
    (op, ints, byte strings, impl-output tokens); the answer is a token list.
    Ops < 100 run the model; ops >= 100 are property oracles applied to what the
    implementation returned for the same case (out). *)
-From Verif Require Import Base Consts Packet PacketSpec OpenSpec Errors Update UpdateSpec UpdateOracles Server ServerSpec Conn Peer Mgr.
+From Verif Require Import Base Consts Packet PacketSpec OpenSpec Errors Update UpdateSpec UpdateOracles Server ServerSpec Conn Timed TimedW Peer Mgr.
 From Coq Require Import ZArith.
 
 Definition nthN (l : list N) (i : nat) : N := nth i l 0.
@@ -208,7 +208,34 @@ Fixpoint take_notifs (k : nat) (ints : list N) (bs : list bytes) : list (option 
       end
   end.
 
-Definition conn_scenario (ints : list N) (bs : list bytes) : list N :=
+(* the connection with its keep-alive manager (TimedW.v), no time passing: every input of the connection is followed by
+   the manager's approval where one is awaited and by the serving of every waiting reset token, oldest first *)
+Fixpoint serve_all (fuel : nat) (cf : cconf) (pl : cplugin) (xs : xstate) : xstate * list caction :=
+  match fuel with
+  | O => (xs, [])
+  | S f => match xstep cf pl xs 0 (XReset 0) with
+           | Some (xs', a) => let (xs'', a') := serve_all f cf pl xs' in (xs'', a ++ a')
+           | None => (xs, [])
+           end
+  end.
+Definition xstep_served (cf : cconf) (pl : cplugin) (xs : xstate) (i : cinput) : xstate * list caction :=
+  match xstep cf pl xs 0 (XConn i) with
+  | Some (xs', a) => let (xs'', a') := serve_all (S (length (xs_pending xs'))) cf pl xs' in (xs'', a ++ a')
+  | None => (xs, [])
+  end.
+Fixpoint xrun_auto (cf : cconf) (pl : cplugin) (xs : xstate) (ins : list cinput) : xstate * list caction :=
+  match ins with
+  | [] => (xs, [])
+  | i :: r =>
+      let (xs1, a1) := xstep_served cf pl xs i in
+      let (xs1', a1') := match c_phase (ts_conn (xs_t xs1)) with
+                         | PWaitOC | PWaitEst => xstep_served cf pl xs1 IApprove
+                         | _ => (xs1, [])
+                         end in
+      let (xs2, a2) := xrun_auto cf pl xs1' r in (xs2, a1 ++ a1' ++ a2)
+  end.
+
+Definition conn_scenario_with (full : cconf -> cplugin -> list cinput -> list caction) (ints : list N) (bs : list bytes) : list N :=
   match ints, bs with
   | lid :: las :: ras :: hold :: eof :: stop_after :: of :: oc :: os :: nh :: ir, stream :: od :: br =>
       let '(hs, ir1, br1) := take_notifs (N.to_nat nh) ir br in
@@ -235,7 +262,7 @@ Definition conn_scenario (ints : list N) (bs : list bytes) : list N :=
               let (st2, a2) := conn_run cf pl st1 (map IRd (firstn 1 (skipn (k - 1) evs)) ++ [IStop]) in
               a1 ++ a2
             else
-              snd (conn_run_auto cf pl cinit (map IRd evs ++ (if stop_after =? 9998 then [] else [IStop]))) in
+              full cf pl (map IRd evs ++ (if stop_after =? 9998 then [] else [IStop])) in
           let first := send_open cf lid caps in
           match first with
           | AWrite _ :: _ =>
@@ -246,6 +273,10 @@ Definition conn_scenario (ints : list N) (bs : list bytes) : list N :=
       end
   | _, _ => [998]
   end.
+
+Definition conn_scenario := conn_scenario_with (fun cf pl ins => snd (conn_run_auto cf pl cinit ins)).
+(* op 62: the same scenario with the keep-alive manager: adds the re-arm operations caused by UPDATE writes *)
+Definition conn_scenario_x := conn_scenario_with (fun cf pl ins => snd (xrun_auto cf pl (xinit 0) ins)).
 
 (* ---- peer manager replay ---- *)
 Definition st_of (n : N) : st :=
@@ -438,6 +469,7 @@ Definition run_model (op : N) (ints : list N) (bs : list bytes) : list N :=
   | 43 => damp_run damp_init (times_of ints 1000000000000)
   | 44 => [tok_bool (new_server_ok (mkAddr (akind_of (nthN ints 0)) (nthN ints 1)))]
   | 60 => conn_scenario ints bs
+  | 62 => conn_scenario_x ints bs
   | 70 => (* peer manager replay: ints [passive; dominant; events...] *)
       let (m0, outs0) := mgr_init (negb (nthN ints 0 =? 0)) (negb (nthN ints 1 =? 0)) in
       mgr_replay (S (length ints)) m0 outs0 false (skipn 2 ints) 0
